@@ -3,6 +3,7 @@
 //!
 //! usage: harness <property> [--tier quick|thorough] [--seed N] [--n N] [--requests FILE] [extra...]
 mod compile_util;
+mod declgen;
 mod progen;
 mod util;
 
